@@ -134,7 +134,9 @@ def ranalysis(rng, depth, names):
     k = rng.choice(kinds)
     name = None
     if rng.random() < 0.5:
-        name = f"an{len(names)}"
+        # sometimes a name of the form the exporter itself gives unnamed analyses
+        cands = [n for n in ("Analysis0", "Analysis1", "Analysis2", "Analysis3") if n not in names]
+        name = rng.choice(cands) if cands and rng.random() < 0.3 else f"an{len(names)}"
         names.append(name)
     a = {"k": k, "name": name}
     if k == "dc":
@@ -643,15 +645,25 @@ def reexports(rec, rng, k, spec=None):
 def bad_tbs(rec):
     import hdl21.sim as hs
 
-    for kind, must_reject in (("no-port", True), ("two-ports", True), ("bus-port", True), ("scalar+bus", True), ("scalar+two-buses", True), ("bundle-port", True), ("only-bundle-port", None), ("ok", False)):
+    for kind, must_reject in (("no-port", True), ("two-ports", True), ("bus-port", True), ("scalar+bus", True), ("scalar+two-buses", True), ("bundle-port", True), ("only-bundle-port", True), ("ok", False)):
         rec.count("bad-tb.probed")
         case = {"kind": "tb", "tb": kind}
         rec.case(key=f"tb:{kind}", nontrivial=True, sample=case)
-        for style in ("proc", "list"):
+        for style in ("proc", "list", "class", "proc-elaborated-before", "class-elaborated-before"):
             tb = make_tb(kind)
             try:
-                s = hs.Sim(tb=tb, attrs=[hs.Op()])
-                hs.to_proto(s if style == "proc" else [s])
+                if style.endswith("elaborated-before"):
+                    import hdl21 as h
+
+                    try:
+                        h.elaborate(tb)  # the verdict must not depend on whether the testbench was elaborated before
+                    except Exception:
+                        continue
+                if style.startswith("class"):
+                    s = hs.sim(type(f"SimTb{next(_uid)}", (), {"tb": tb, "op": hs.Op()}))
+                else:
+                    s = hs.Sim(tb=tb, attrs=[hs.Op()])
+                hs.to_proto([s] if style == "list" else s)
                 if must_reject:
                     rec.violation("bad-testbench-accepted", f"a testbench with {kind} (not exactly one scalar port) was exported ({style})", case=case, tb=kind)
             except Exception as e:
